@@ -317,7 +317,9 @@ def run(ctx):
     for c in range(NFMT):
         cnt = float(rand_count(rng))
         fr = rng.choice([rand_frac(rng), rng.choice([0.05, 0.2, 0.24, 0.25, 0.3, -0.3, 0.96, 0.999, 1e-17, -1e-20, 0.049999999999999996,
-                                                      0.15, 0.35, 0.0, 0.5, -0.5, 0.45, 0.005, 0.0049999, 0.095, 0.9995])])
+                                                      0.15, 0.35, 0.0, 0.5, -0.5, 0.45, 0.005, 0.0049999, 0.095, 0.9995]),
+                         # a hair on either side of a whole cycle (frac + 1 rounds to 1.0: the carry / borrow paths of to_string)
+                         rng.choice([1, -1]) * rng.choice([1e-17, 2.0 ** -54, 2.0 ** -55, 3e-17, 5e-324, 2.0 ** -53, 1.2e-16])])
         imag = rng.random() < 0.1
         p = Phase(cnt * 1j, fr * 1j) if imag else Phase(cnt, fr)
         prec = rng.choice([None, None, None, 0, 1, 2, 3, 5, 8, 12, 15, 16, 17, 18, 20])
